@@ -80,20 +80,27 @@ func wildcardMatch(pat []byte, str []byte) bool {
 		if len(pat) == 0 {
 			return len(str) == 0
 		}
-		if len(str) == 0 {
-			return false
-		}
 
 		if pat[0] == '*' {
-			if len(pat) == 1 {
+			// Skip this and any consecutive asterisks.
+			for len(pat) > 0 && pat[0] == '*' {
+				pat = pat[1:]
+			}
+			// A trailing '*' matches the rest of the string, including
+			// the empty string.
+			if len(pat) == 0 {
 				return true
 			}
 
 			for j := range str {
-				if wildcardMatch(pat[1:], str[j:]) {
+				if wildcardMatch(pat, str[j:]) {
 					return true
 				}
 			}
+			return false
+		}
+
+		if len(str) == 0 {
 			return false
 		}
 
